@@ -121,6 +121,12 @@ let run_program pid body vecs =
            (String.concat ";" (List.map (fun (t, v) -> Printf.sprintf "%d:1:%s" (int_of_nat t) (string_of_bv v)) r)));
     let vs = eval_all inp st.eG in
     let e = sig_values vs st.eSigs in
+    (* number of multiplexers whose selector is not fully defined under this valuation (the
+       reference simulator is not monotone there; the check uses it to scope the raw [= post test) *)
+    let q = List.fold_left (fun acc n -> match n with
+      | NMux (sel, _) -> if List.for_all (fun b -> b <> BX) (getv vs sel) then acc else acc + 1
+      | _ -> acc) 0 st.eG in
+    Printf.printf "%s %d MQ %d\n" pid k q;
     Printf.printf "%s %d ME F %s R %s\n" pid k (fmt_env e)
       (String.concat ";" (List.map (fun r ->
          Printf.sprintf "%d:%s:%s" (int_of_nat r.rd_tmp)
